@@ -1,5 +1,6 @@
 """C07 Recovering loops and conditionals while decompiling preserves behaviour (guard presence)."""
 from common import Report
+from facts import MissingAnchor
 from facts import hir_walk, op_local, op_place, place_local, place_proj
 from rules import arms, flow, visit
 
@@ -267,4 +268,40 @@ def run(db, tier):
     rep.fn(ub)
     rep.check("passes::unused_labels::get_label_refcounts" in arms.calls_in(ub.hir), "R-GUARD-LABELS", "visit_root_block|whole-function-counts", ub.loc,
               "reference counts are computed for the whole function body", "reference counts are no longer computed per function body")
+    # ---------------- reference counts are whole-function counts in every reconstruction visitor
+    n_rc = 0
+    for g2 in sorted(db.fns.values(), key=lambda x: x.id):
+        if g2.gen or not (g2.id.startswith("passes::decompile_loop::") or g2.id.startswith("<passes::decompile_loop::")):
+            continue
+        for bi, t in g2.calls():
+            if t.get("f") == "passes::unused_labels::get_label_refcounts":
+                n_rc += 1
+                okrc = g2.id.endswith("::visit_root_block")
+                rep.check(okrc, "R-GUARD-LABELS", "refcounts|%s" % g2.id, "%s:%d" % (g2.file, t["ln"]),
+                          "label reference counts are taken once over the whole function body (visit_root_block)",
+                          "label reference counts are computed in %s, i.e. per nested block: jumps into a block from outside it are not counted, "
+                          "so a label that something else still jumps to can be removed" % g2.id.rsplit("::", 1)[-1])
+    rep.floor("get_label_refcounts call sites in decompile_loop", n_rc, 1)
+
+    # ---------------- break: only labels IMMEDIATELY after the loop are loop ends
+    gl = [x for x in db.fns.values() if x.id.startswith("<passes::decompile_loop::gather_loop_end_labels::Visitor as ast::ref_::Visit>::visit_block")]
+    if not gl:
+        raise MissingAnchor("gather_loop_end_labels::Visitor::visit_block")
+    gl = gl[0]
+    rep.fn(gl)
+    kinds = set()
+    for n in hir_walk(gl.hir):
+        pats = []
+        if n.get("k") == "Match":
+            pats = [a_["p"] for a_ in n["arms"]]
+        elif n.get("k") == "LetE":
+            pats = [n["p"]]
+        for p_ in pats:
+            for sg in arms.pat_sig(p_):
+                if sg:
+                    import re as _re
+                    kinds |= set(_re.findall(r"ast::StmtKind::(\w+)", sg))
+    rep.check(kinds == {"Label"}, "R-GUARD-BREAK", "loop-end labels|adjacent only", gl.loc, "only Label statements directly after the loop count as its end",
+              "statement kinds %s are skipped when looking for the loop's end label: a time label between the loop and the label changes the time at "
+              "which `break` lands, so the jump's target time is altered" % sorted(kinds - {"Label"}))
     return rep
